@@ -82,8 +82,10 @@ impl AtomicU8 {
         ensures
             r matches Err(v) ==> self.observed(v) && v != current && (is_acquire(failure) ==> acq_synced())
                 && (current == 2 && new == 3 ==> v < 2),
-            r matches Ok(v) ==> v == current && self.stored(new, success),
+            r matches Ok(v) ==> v == current && self.stored(new, success) && self.cas_succeeded(current, new),
     { unimplemented!() }
+    /// a compare_exchange(cur -> new) of this thread succeeded
+    pub uninterp spec fn cas_succeeded(&self, cur: u8, new: u8) -> bool;
     /// this thread has stored `v` with ordering `o`
     pub uninterp spec fn stored(&self, v: u8, o: Ordering) -> bool;
     /// a store to the signal state: publishing a final state (UNLOCKED / TERMINATED) must be a release
@@ -161,9 +163,12 @@ impl<X> UnsafeCell<X> {
 pub proof fn axiom_starvation_publishes_handle(cell: Option<std::thread::Thread>)
     ensures cell is Some,
 {}
-pub assume_specification [<std::thread::Thread as core::clone::Clone>::clone] (_0: &std::thread::Thread) -> std::thread::Thread;
-pub assume_specification [std::thread::Thread::unpark] (_0: &std::thread::Thread);
-pub assume_specification [core::task::Waker::wake] (_0: core::task::Waker);
+pub assume_specification [<std::thread::Thread as core::clone::Clone>::clone] (_0: &std::thread::Thread) -> (r: std::thread::Thread) ensures r == *_0;
+/// this thread has invoked the task waker `w` / unparked the thread `t`
+pub uninterp spec fn woken(w: core::task::Waker) -> bool;
+pub uninterp spec fn unparked(t: std::thread::Thread) -> bool;
+pub assume_specification [std::thread::Thread::unpark] (_0: &std::thread::Thread) ensures unparked(*_0);
+pub assume_specification [core::task::Waker::wake] (_0: core::task::Waker) ensures woken(_0);
 /// T10: std::thread::current / park (trusted: return, touch nothing the contracts speak about)
 pub assume_specification [std::thread::current] () -> std::thread::Thread;
 pub assume_specification [std::thread::park] ();
